@@ -357,6 +357,35 @@ func (h *apiHarness) op(f []string) (res string) {
 		}
 		code, _, _ := h.do(f[1], f[2], nil, nil, pw, 0)
 		return fmt.Sprintf("status=%d", code)
+	case "statustime": // statustime <n> <gapms>: the clock reading a peer reports (JSON status) lies within the request's own start/end
+		n, _ := strconv.Atoi(f[1])
+		gap, _ := strconv.Atoi(f[2])
+		okc, worst := 0, time.Duration(0)
+		for k := 0; k < n; k++ {
+			start := time.Now()
+			code, body, _ := h.do("GET", "/status", nil, map[string]string{"Accept": "application/json"}, verifPassword, 0)
+			end := time.Now()
+			var st struct{ CurrentTime time.Time }
+			if code != 200 || json.Unmarshal(body, &st) != nil {
+				return fmt.Sprintf("status=%d", code)
+			}
+			if !st.CurrentTime.Before(start.Add(-time.Millisecond)) && !st.CurrentTime.After(end.Add(time.Millisecond)) {
+				okc++
+			} else if d := start.Sub(st.CurrentTime); d > worst {
+				worst = d
+			} else if d := st.CurrentTime.Sub(end); d > worst {
+				worst = d
+			}
+			time.Sleep(time.Duration(gap) * time.Millisecond)
+		}
+		return fmt.Sprintf("status=200 within=%d/%d worstms=%d", okc, n, worst.Milliseconds())
+	case "origin": // origin <originhex>: a public request carrying that Origin; is it granted by CORS?
+		code, _, hdr := h.do("POST", "/robustirc/v1/0x1/message", []byte("{}"), map[string]string{"Origin": iunhex(f[1])}, "", 0)
+		acao := "-"
+		if hdr != nil && hdr.Get("Access-Control-Allow-Origin") != "" {
+			acao = fmt.Sprintf("%x", hdr.Get("Access-Control-Allow-Origin"))
+		}
+		return fmt.Sprintf("status=%d acao=%s", code, acao)
 	case "public": // public <method> <path> : raw request without credentials
 		code, _, _ := h.do(f[1], f[2], []byte("{}"), nil, "", 0)
 		return fmt.Sprintf("status=%d", code)
